@@ -528,3 +528,116 @@ def per_author_options(prog, an, rep, pid):
         okr = first is not None and first[0] == 'raise'
     rep.check(okr, R, f.qname + ': an unknown bypass name is rejected',
               f.where(), 'unknown per-author bypass names are accepted')
+
+
+def in_sync_pairs(prog, an, rep, pid):
+    """check_in_sync answers "nothing moved since the w/ branches were
+    built" and lets queue mode keep their tips (and the build statuses
+    attached to them).  Every integration branch has to be compared with its
+    predecessor, the first one with the source branch: leaving a pair out
+    lets a new source commit go unmerged while the old green tips pass the
+    build gate."""
+    from ..rules import (substitute_locals, parent_map, inside,
+                         iteration_outcomes, returns_under)
+    R = pid + '.ARG.in-sync-pairs'
+    f = need_func(an, GWF + '.check_in_sync')
+    c = an.cfg(f)
+    job, wbr = f.params[0], f.params[1]
+    source = '%s.git.src_branch' % job
+    tests = an.test_nodes(
+        f, lambda e: isinstance(e, ast.Call) and
+        isinstance(e.func, ast.Attribute) and
+        e.func.attr == 'includes_commit', expand=None)
+    if len(tests) != 1:
+        raise AnalysisError('anchor-missing the includes_commit test of %s'
+                            % f.qname)
+    call = tests[0].matched
+    pm = parent_map(f.node)
+    loop = tests[0].ast
+    while loop in pm and not isinstance(loop, ast.For):
+        loop = pm[loop]
+    if not isinstance(loop, ast.For):
+        raise AnalysisError('anchor-missing the loop of %s' % f.qname)
+    arg = call.args[0] if call.args else None
+    ok = isinstance(arg, ast.Call) and isinstance(arg.func, ast.Attribute) \
+        and arg.func.attr == 'get_latest_commit' and \
+        isinstance(arg.func.value, ast.Name) and \
+        isinstance(call.func.value, ast.Name)
+    rep.evaluated()
+    rep.check(ok, R, f.qname + ': <branch>.includes_commit(<previous>.'
+              'get_latest_commit())', f.where(call), 'the test is %s' %
+              src(call))
+    if not ok:
+        return
+    B, P = call.func.value.id, arg.func.value.id
+
+    def text(e):
+        return src(substitute_locals(f, e))
+    if isinstance(loop.target, ast.Name):
+        rep.check(loop.target.id == B and text(loop.iter) == wbr, R,
+                  f.qname + ': every integration branch is tested',
+                  f.where(loop), 'the tested branch %s ranges over %s, not '
+                  'over all of %s' % (B, text(loop.iter), wbr))
+        stores = stores_to(f, P)
+        first = [st for st, v in stores if not inside(loop, st)]
+        step = [st for st, v in stores if inside(loop, st)]
+        rep.check(len(first) == 1 and len(step) == 1 and
+                  text(first[0].value) == source and
+                  isinstance(step[0].value, ast.Name) and
+                  step[0].value.id == B, R, f.qname + ': the predecessor '
+                  'starts at the source branch and follows the loop',
+                  f.where(loop), 'the predecessor %s is bound to %s' % (
+                      P, [src(v) if v is not None else '?'
+                          for _, v in stores]))
+        if len(step) == 1:
+            head = c.stmt_node[id(loop)]
+            done = c.done_node.get(id(step[0]))
+            skip = None
+            for s0 in c.succ[head]:
+                if c.nodes[s0].kind == 'true':
+                    skip = skip or c.path(s0, head, removed={done},
+                                          use_exc=False)
+            rep.check(skip is None, R, f.qname + ': the predecessor is '
+                      'advanced in every iteration', f.where(step[0]),
+                      'an iteration can end without `%s = %s`' % (P, B),
+                      path=c.describe_path(skip))
+    elif isinstance(loop.target, ast.Tuple) and \
+            [getattr(x, 'id', None) for x in loop.target.elts] == [P, B] \
+            and isinstance(loop.iter, ast.Call) and \
+            isinstance(loop.iter.func, ast.Name) and \
+            loop.iter.func.id == 'zip' and len(loop.iter.args) == 2:
+        prevs, cur = (text(a) for a in loop.iter.args)
+        good = ('[%s] + %s' % (source, wbr),
+                '[%s] + %s[:-1]' % (source, wbr),
+                '[%s] + list(%s)' % (source, wbr),
+                '[%s, *%s]' % (source, wbr), '(%s, *%s)' % (source, wbr),
+                'itertools.chain([%s], %s)' % (source, wbr),
+                'chain([%s], %s)' % (source, wbr))
+        rep.check(cur == wbr and source in prevs, R, f.qname + ': every '
+                  'integration branch is paired with its predecessor, the '
+                  'first with the source branch', f.where(loop),
+                  'pairs are zip(%s, %s): %s' % (
+                      prevs, cur, 'the source branch is never compared'
+                      if source not in prevs else
+                      'not every integration branch is tested'))
+        if cur == wbr and source in prevs and prevs not in good:
+            raise AnalysisError('%s: pairing zip(%s, %s) is not a form this '
+                                'check knows' % (pid, prevs, cur))
+    else:
+        raise AnalysisError('%s: the loop of check_in_sync is not a form '
+                            'this check knows' % pid)
+    key = src(call)
+    for val, want_it, want_ret in ((False, {('return',)}, False),
+                                   (True, {('end',)}, True)):
+        rep.evaluated()
+        it = iteration_outcomes(an, f, loop, {key: val})
+        rets = returns_under(an, f, {key: val})
+        rep.check(it == want_it and want_ret in rets and
+                  rets <= {True, False} and (val is False or
+                                             rets == {True}), R,
+                  f.qname + ': a branch that %s its predecessor %s' % (
+                      'contains' if val else 'lacks', 'goes on to the next'
+                      if val else 'answers False'), f.where(loop),
+                  'with includes_commit() == %s an iteration does %s and '
+                  'the function returns %s' % (val, sorted(it),
+                                               sorted(map(str, rets))))
